@@ -502,6 +502,10 @@ def _run_rest(check, an: Analysis):
     _kernel.check_kernel_core(check, an)
     from . import _scope as _sc
     _sc.check_until_core(check, an)
+    from . import c03 as _c03
+    _c03.check_activation_flags(check, an, 'L6')
+    from . import c07 as _c07
+    _c07.check_run_root(check, an, 'L5')
     check.stats.update(an.stats())
 
 
